@@ -14,7 +14,9 @@ CopyOk(r) ==
          /\ r.eq = ~V!HasNaN(r.src)
          /\ IF r.mutated = 0 THEN r.copy_after = r.copy /\ (r.changed => r.src_after # r.src)
             ELSE r.src_after = r.src /\ (r.changed => r.copy_after # r.copy)
-StepOfImpl(s, r) == [ok |-> IF r.e = "eq" THEN EqOk(r) ELSE IF r.e = "copy" THEN CopyOk(r) ELSE FALSE, st |-> s]
+\* "ckcopy": the copy of an object with constant (not copied) member names survives the source and the reuse of the name memory
+CkCopyOk(r) == r.rc = 0 /\ r.copy = r.src /\ r.copy_after = r.src /\ r.lookup
+StepOfImpl(s, r) == [ok |-> IF r.e = "eq" THEN EqOk(r) ELSE IF r.e = "copy" THEN CopyOk(r) ELSE IF r.e = "ckcopy" THEN CkCopyOk(r) ELSE FALSE, st |-> s]
 TraceLog == ndJsonDeserialize(IOEnv.TRACE)
 T == INSTANCE TraceBase WITH Log <- TraceLog, InitSt <- 0, StepOf <- StepOfImpl, ResyncAtNew <- FALSE
 Spec == T!Spec
